@@ -16,11 +16,12 @@ CONFIG = {
                  "differential through minimal isolating documents; plus exploration (mutation corpus, deep nesting in "
                  "child processes) of parser totality",
     "level_text": "Proof (unbounded, all strings) of the token-language contract: for blank node labels, variable names "
-                  "and language tags emitted by the Rio back-ends, for generated JSON-LD labels, for IRIs checked by oxiri "
-                  "with a lower-case IPvFuture marker, and for the configured base (Iri::new => oxiri::Iri::parse(..).unwrap() "
+                  "and language tags emitted by the Rio back-ends, for generated JSON-LD labels, for every IRI / IRI reference "
+                  "checked by oxiri (N-Triples, N-Quads, generalized N-Quads, Turtle/TriG IRIREFs, RDF/XML IRI attributes), "
+                  "and for the configured base (Iri::new => oxiri::Iri::parse(..).unwrap() "
                   "cannot fail), the back-end language is included in the validator language regenerated from /repo "
                   "(soundness of the decision procedure kernel-checked; each per-regex obligation evaluated by native_decide). "
-                  "Where the inclusion is FALSE (upper-case [V..] IP literals, unvalidated prefixed names / GTriG IRIREFs / "
+                  "Where the inclusion is FALSE (unvalidated prefixed names / GTriG IRIREFs / "
                   "RDF-XML qualified names, rdf:nodeID with trailing or double dots, Turtle-family object labels with a "
                   "trailing dot) the full statement is refuted by a kernel-checked witness and reported as a finding with "
                   "the witness document. rio/src/parser.rs error mapping: a small model (scripted back-end, failing callback), proved "
@@ -41,15 +42,14 @@ CONFIG = {
     "lean_targets": ["SophiaProofs.Props.C08", "SophiaProofs.Audit.C08"],
     "theorems": ["rio_bnode_sub_validator", "rio_var_sub_validator", "rio_lang_sub_validator",
                  "jsonld_bnode_sub_validator", "base_unwrap_safe",
-                 "oxiri_abs_sub_validator_partial", "oxiri_ref_sub_validator_partial",
-                 "oxiri_abs_sub_validator_refuted", "oxiri_ref_sub_validator_refuted",
+                 "oxiri_abs_sub_validator", "oxiri_ref_sub_validator",
                  "gtrig_iri_sub_validator_refuted", "ttl_pname_sub_validator_refuted",
                  "xml_qname_sub_validator_refuted", "xml_nodeid_sub_validator_refuted",
                  "xml_nodeid_sub_validator_partial", "ttl_bnode_obj_sub_validator_refuted",
                  "glue_no_unwrap", "glue_source_error", "glue_end"],
     "native_ok": ["rio_bnode_sub_validator", "rio_var_sub_validator", "rio_lang_sub_validator",
-                  "jsonld_bnode_sub_validator", "base_unwrap_safe", "oxiri_abs_sub_validator_partial",
-                  "oxiri_ref_sub_validator_partial", "xml_nodeid_sub_validator_partial"],
+                  "jsonld_bnode_sub_validator", "base_unwrap_safe", "oxiri_abs_sub_validator",
+                  "oxiri_ref_sub_validator", "xml_nodeid_sub_validator_partial"],
     "trivial_re": r"^accepted=0( emitted=none)?$|^new=0$|^skip|^bad-",
     "rule": "tok: tokens sampled from the validator regexes of /repo (HIR of BNODE_ID, VARNAME, LANG_TAG, IRI_REGEX, "
             "IRELATIVE_REF_REGEX read from the working tree), from Rust-side grammars of the back-end languages (name "
@@ -96,7 +96,7 @@ _RE_SEG_NC = re.compile(r"(?:[%s@]|%s)*\Z" % (_IUS, _PCT))
 _RE_QUERY = re.compile(r"(?:[%s:@/?%s]|%s)*\Z" % (_IUS, _PRIV, _PCT))
 _RE_FRAG = re.compile(r"(?:[%s:@/?]|%s)*\Z" % (_IUS, _PCT))
 _RE_SPLIT = re.compile(r"(?:([A-Za-z][A-Za-z0-9+.\-]*):)?(?://([^/?#]*))?([^?#]*)(?:\?([^#]*))?(?:#(.*))?\Z", re.S)
-_RE_VFUT = re.compile(r"v[0-9A-Fa-f]+\.[A-Za-z0-9\-._~!$&'()*+,;=:]+\Z")
+_RE_VFUT = re.compile(r"[vV][0-9A-Fa-f]+\.[A-Za-z0-9\-._~!$&'()*+,;=:]+\Z")
 
 
 def _host_ok(h, v_any=False):
@@ -104,7 +104,7 @@ def _host_ok(h, v_any=False):
         if not h.endswith("]"):
             return False
         ip = h[1:-1]
-        if _RE_VFUT.match(ip) or (v_any and ip[:1] == "V" and _RE_VFUT.match("v" + ip[1:])):
+        if _RE_VFUT.match(ip):          # upper- or lower-case marker (as IRI_REGEX since /repo 94adeaf)
             return True
         if not re.match(r"[0-9A-Fa-f:.]*\Z", ip):
             return False
@@ -189,7 +189,6 @@ _RIO = ("nt", "nq", "ttl", "trig", "gnq", "gtrig", "xml")
 _IRI_BAD_TERM = (("FAIL.accessor_panic", "iri"), ("FAIL.accessor_panic", "datatype"), ("FAIL.invalid_term", "iri"),
                  ("FAIL.invalid_term", "datatype"))
 
-_RE_VLIT = re.compile(r"\[V[0-9A-Fa-f]+\.[A-Za-z0-9\-._~!$&'()*+,;=:]+\]")
 
 
 def _unescape_iriref(s):
@@ -211,27 +210,6 @@ def _irirefs(text):
     for m in re.finditer(r"(?:@prefix|@base|PREFIX|BASE)\s*[^\s<]*\s*<([^>\n\r]*)>", text, re.I):
         out.append(_unescape_iriref(m.group(1)))
     return out
-
-
-@predicate
-def c08_ipvfuture_upper(failure):
-    """IP literal with an upper-case IPvFuture marker `[V…]`: accepted by oxiri, rejected by IRI_REGEX"""
-    if _field(failure) not in _IRI_BAD_TERM:
-        return False
-    x = _tok(failure)
-    if x:
-        syn, kind, w = x
-        if syn not in _RIO or kind not in ("iri", "dt"):
-            return False
-        rel_ok = syn in ("gnq", "gtrig") and kind == "iri"
-        return (_RE_VLIT.search(w) is not None and not iri_ref_ok(w, absolute=not rel_ok)
-                and iri_ref_ok(w, absolute=not rel_ok, v_any=True))
-    d = _doc(failure)
-    if d:
-        syn, text, _ = d
-        return syn in _RIO and any(_RE_VLIT.search(i) and iri_ref_ok(i, v_any=True) and not iri_ref_ok(i)
-                                   for i in _irirefs(text) + re.findall(r'="([^"]*)"', text))
-    return False
 
 
 @predicate
@@ -491,10 +469,8 @@ _OBLIGATION_REQS = {
     "rio_var": [("gnq", "var"), ("gtrig", "var")],
     "rio_lang": [("nt", "lang"), ("nq", "lang"), ("ttl", "lang"), ("trig", "lang"), ("gnq", "lang"), ("gtrig", "lang"), ("xml", "lang")],
     "jsonld_bnode": [],
-    "oxiri_abs_lower": [("nt", "iri"), ("nq", "iri"), ("ttl", "iri"), ("trig", "iri"), ("xml", "iri"), ("nt", "dt"), ("ttl", "dt")],
-    "oxiri_ref_lower": [("gnq", "iri")],
     "xml_nodeid_nodot": [("xml", "nodeid")],
-    "oxiri_abs": [("nt", "iri"), ("ttl", "iri"), ("xml", "iri")],
+    "oxiri_abs": [("nt", "iri"), ("nq", "iri"), ("ttl", "iri"), ("trig", "iri"), ("xml", "iri"), ("nt", "dt"), ("ttl", "dt")],
     "oxiri_ref": [("gnq", "iri")],
     "gtrig_iri": [("gtrig", "iri")],
     "ttl_pname": [("ttl", "pname"), ("trig", "pname"), ("gtrig", "pname")],
